@@ -77,7 +77,7 @@ def containers_of(prog):
                     r_ok &= bool(_names(x))
                 if r_ok and rn:
                     out.append(("R%d" % it["id"], "rule", rn))
-                f_ok &= r_ok and bool(rn)
+                f_ok &= r_ok           # (a rule without scenarios does not take the feature out of scope: it is skipped itself)
                 fn += rn
             else:
                 fn += _names(it)
